@@ -50,3 +50,66 @@ Example C20_desc_h_named_nonvacuous :
   chk Segwitv0 (MPkK 6) = Some CXOnly /\
   translate_desc_h (fun _ k => Some 31%N) (fun _ _ h => Some h) chk kk (DWpkh 40) = TErr (OuterErr CUncompressed).
 Proof. exact desc_named_examples. Qed.
+
+(* ==================================================================================================================
+   (C) Script preservation as a byte-level rewrite of the ORIGINAL script (Ms/ScriptRewrite.v, Proofs/TranslateBytes.v).
+   [rw s l]: the i-th data push of the structured script s (serialisation order, IF branches included) gets the payload
+   [nth i l] when that is [Some b'], and stays when it is [None]; nothing else changes.  [pslots m]: for every data push of
+   [enc ke m], in order, [None] for a number / empty push and [Some a] for the push of the atom a of m (key bytes, key hash,
+   hash) -- a function of m alone.  [slots ke' g gh m] = the images of those atoms.  [rewrite_bytes b l] parses the
+   serialised script b, rewrites, serialises.
+   sortedmulti / sortedmulti_a are EXCLUDED ([no_sorted m]): their pushes are ordered by the serialised keys, so the position
+   of a key's push is not a function of the term (C20_bytes_sorted_excluded below shows the statement fails for them); for
+   those C20_tr_structure_script / C20_trh_structure_script (under the sort hypothesis on the key environments) remain. *)
+From Verif Require Import CodecSpec ScriptRewrite TranslateBytes.
+Import ListNotations.
+
+(* enc commutes with the substitution of keys and hashes; no hypothesis on the key environments *)
+Theorem C20_enc_commutes_with_subst : forall (ke ke' : keyenv) g gh m, no_sorted m = true ->
+  rw (enc ke m) (slots ke' g gh m) = (enc ke' (map_atoms g gh m), []).
+Proof. exact enc_map_atoms_rewrite. Qed.
+Print Assumptions C20_enc_commutes_with_subst.
+
+(* the designated positions are where the original atoms are pushed: rewriting with the original atoms is the identity *)
+Theorem C20_rewrite_with_original_atoms_id : forall ke m, no_sorted m = true ->
+  rw (enc ke m) (slots ke (fun k => k) (fun _ h => h) m) = (enc ke m, []).
+Proof. exact rw_original_id. Qed.
+Print Assumptions C20_rewrite_with_original_atoms_id.
+
+(* byte level: the serialised script of the substituted term is the original serialised script with each key push /
+   key-hash push / hash push replaced by the image's ([ms_wf]: C09's well-formedness, under which the script parses) *)
+Theorem C20_script_bytes_rewrite : forall c ke ke' g gh m, ksort_ok ke -> ms_wf c ke m -> no_sorted m = true ->
+  rewrite_bytes (encode ke m) (slots ke' g gh m) = Some (encode ke' (map_atoms g gh m)).
+Proof. exact encode_map_atoms_rewrite. Qed.
+Print Assumptions C20_script_bytes_rewrite.
+
+(* ... and for translate_pk_ctx as coded (hash translation included) *)
+Theorem C20_translate_script_bytes : forall c ke ke' fp fhp chk m m', ksort_ok ke -> ms_wf c ke m -> no_sorted m = true ->
+  translate_iter_h (fun _ => fp) (fun _ => fhp) chk m = TOk m' ->
+  rewrite_bytes (encode ke m) (slots ke' (total fp) (total_h fhp) m) = Some (encode ke' m').
+Proof. exact translate_bytes. Qed.
+Print Assumptions C20_translate_script_bytes.
+
+(* non-vacuity: and_v(v:sha256(H),andor(pk(1),pkh(2),older(100))) under 33-byte keys; the five data pushes are
+   [32] (number), H, key 1, [100] (number), hash160 of key 2; keys +10 in another environment, first hash byte changed *)
+Definition cl_ke : keyenv := mkKeyEnv (fun k => 2 :: repeat k 32) (fun k => repeat k 20) (fun l => l).
+Definition cl_ke' : keyenv := mkKeyEnv (fun k => 3 :: repeat k 32) (fun k => repeat (k + 100) 20) (fun l => rev l).
+Definition cl_m : ms := MAndV (MVerify (MSha256 (repeat 1 32))) (MAndOr (MCheck (MPkK 1)) (MCheck (MPkH 2)) (MOlder 100)).
+Example C20_bytes_nonvacuous :
+  let g := fun k => k + 10 in
+  let gh := fun (_ : hkind) (h : bytes) => match h with [] => [] | x :: r => (x + 1) :: r end in
+  no_sorted cl_m = true /\
+  pslots cl_m = [None; Some (PHash HSha256 (repeat 1 32)); Some (PKb 1); None; Some (PKh 2)] /\
+  rewrite_bytes (encode cl_ke cl_m) (slots cl_ke' g gh cl_m) = Some (encode cl_ke' (map_atoms g gh cl_m)) /\
+  encode cl_ke' (map_atoms g gh cl_m) <> encode cl_ke cl_m /\
+  N.of_nat (length (encode cl_ke cl_m)) = 105.
+Proof. cbv zeta. repeat split; try (vm_compute; reflexivity). vm_compute. discriminate. Qed.
+
+(* why sortedmulti is excluded: the target environment sorts the two mapped keys the other way round, and the encoding of
+   the translated term is NOT the positional rewrite of the original *)
+Example C20_bytes_sorted_excluded :
+  let m := MSortedMulti 1 [1; 2] in
+  let g := fun k => k + 10 in
+  no_sorted m = false /\
+  fst (rw (enc cl_ke m) [Some (kb cl_ke' (g 1)); Some (kb cl_ke' (g 2))]) <> enc cl_ke' (map_atoms g (fun _ h => h) m).
+Proof. cbv zeta. split; [reflexivity|]. vm_compute. discriminate. Qed.
